@@ -30,10 +30,63 @@ P = {
         "eval_module": "Run.Eval_C14", "check_term": "check_rs",
         "n_quick": 200, "n_thorough": 5000, "findings": {}, "shard": 80,
     }],
-    "rule": "tbd",
-    "anchors": ["internal/rules/rule_factory_impl.go", "internal/config/default_rule.go", "internal/rules/config/rule.go"],
-    "trusted": [],
-    "level_text": "tbd",
-    "level_note": "tbd",
-    "assumptions": [],
+    "rule": "default rule (absent 35 % / partial / complete; 40 % of them as YAML through the real configuration loader) x rule "
+            "definition (every subset of the four stages, ordered and permuted step kinds, 4 distinct CEL conditions, 3 distinct "
+            "override maps, unknown ids, non-string ids of 4 shapes, bad overrides, non-map configs, bad conditions, multi-key "
+            "steps, backtracking unset/on/off, both modes; source id, version string, encoded-slash mode, hosts, methods, scheme, "
+            "number of routes, forward_to.rewrite randomised and not given to the model) through (factory) the real NewRuleFactory/"
+            "CreateRule with a stub catalogue, (ruleset) YAML text through the real parser, processor (OnCreated, or OnUpdated over "
+            "0-3 preloaded rules) and repository, (wiring) the fx Module of the rules package with the real file_system provider and "
+            "rule executor, (realfactory) the real mechanism factory over 14 real mechanisms with type-specific valid and invalid "
+            "overrides. Observed through rule.Rule / rule.Repository / rule.Executor only (factory, ruleset, wiring): Execute on 12 "
+            "probe requests (GET/POST/PUT x nothing fails / authenticators fail / authorization stage fails / finalization stage "
+            "fails) -> error flag and trace of (kind, id, override marker), AllowsBacktracking(), accepted/rejected, which rule "
+            "serves /p0../p3; realfactory: accepted/rejected and mechanism ids per stage. Non-trivial = inside the scope of the "
+            "statement and either a loaded rule that takes over at least one non-empty stage of the default rule, or a rejected "
+            "definition all of whose steps are individually well formed (rejected for order / missing authenticator / forward_to); "
+            "rule sets: more than one rule or a preloaded set; distinct by hash of the generated input",
+    "anchors": ["internal/rules/rule_factory_impl.go", "internal/config/default_rule.go", "internal/rules/config/rule.go",
+                "internal/rules/rule_impl.go", "internal/rules/ruleset_processor_impl.go",
+                "internal/rules/mechanisms/mechanism_factory.go", "internal/rules/module.go"],
+    "trusted": ["stub streams: the answer of the mechanism catalogue (known id / acceptable override) is fixed by the generator "
+                "(stub catalogue: ids \"<n>\" known, an override with the key \"bad\" refused); realfactory stream: it is the "
+                "driver's table of the 11 mechanism types (which single option a type has; option-less types ignore overrides; "
+                "default/redirect error handlers cannot be reconfigured), read off the option structs of the mechanism types "
+                "(not off mechanism_factory.go / rule_factory_impl.go, the code this stream exercises) and reproduced by the real "
+                "types on every run",
+                "CEL: the truth table of the driver's 4 condition expressions on the 3 probe methods is a constant of the "
+                "evaluator (Run/Eval_C14.v holds); the driver checks the real CEL library against it before generating; the "
+                "theorems hold for every oracle",
+                "matcher construction (C03) is a boolean of the case; struct validation of a rule set is modelled as the two "
+                "demands that concern this property (execute non-empty, no empty method name) plus the version check; "
+                "repository path conflicts are not modelled (the generated paths are distinct)",
+                "the probe set decides what is observed of a loaded rule: two effective rules that differ only in the order of "
+                "mechanisms whose conditions never hold together, or in unreachable tails (an authenticator behind one that "
+                "cannot fail, an error handler behind an unconditional one - except under the probe where handlers decline) "
+                "are not distinguished"],
+    "level_text": "Proof (kernel-checked, no axioms) that the model of the rule factory computes, for every default rule and every "
+                  "rule definition in the scope of the statement (steps naming one mechanism; lists of any length, both modes, "
+                  "backtracking unset/on/off), exactly the effective rule of an independently written specification "
+                  "(all steps well formed, sorted by stage, stage = own mechanisms if any else the default rule's, backtracking "
+                  "own/default/off) and rejects exactly what the specification rejects, each clause of the statement also as a "
+                  "theorem of its own; that the rule-set loader (parser validation, version, factory; creation and update) accepts a "
+                  "set iff it accepts every rule and otherwise leaves the source's rules untouched; that the executed trace is the "
+                  "effective pipeline stage by stage; and that an implementation showing what the model shows satisfies the "
+                  "property predicate. The model is tied to the code by running both on ~3200 (quick) / ~80000 (thorough) generated "
+                  "cases per run in four streams and comparing executed traces, load results and served rules; the property "
+                  "predicate (built from the specification alone) is evaluated on the implementation's observation.",
+    "level_note": "Scope: a step map with several mechanism keys and an `if` on an authenticator step are outside the statement; for "
+                  "them only the model's reading (first key in a fixed order, condition ignored) is characterised "
+                  "(C14_pipeline_language) and compared, the property predicate demands nothing. The statement does not say that "
+                  "nothing else is rejected: over-rejection (e.g. the parser refusing a rule without `execute`, documented as "
+                  "mandatory) shows as a correspondence difference, never as a property failure. Error kinds/texts are not "
+                  "compared (histogram only). Trusted: Coq kernel/vm_compute; the harness (generators, stub mechanisms, probe "
+                  "contexts, Gallina rendering); the catalogue/override oracle and the CEL truth table as listed under trusted. "
+                  "No finding is open; C14-F1 was repaired by 97aaffa (history lemma F1_pinned_refuted in C14/Proofs.v, not an "
+                  "obligation).",
+    "assumptions": ["the realfactory stream reads the ids of the created mechanisms from the rule's private stage slices "
+                    "(in-package, own file): renaming those fields stops that stream's driver (reported as correspondence "
+                    "broken, no failing input), not the other three streams, which use rule.Rule/rule.Repository/rule.Executor only",
+                    "the drivers are compiled together with the repository's own in-package tests of internal/rules; if those do "
+                    "not compile, no stream runs"],
 }
